@@ -331,7 +331,10 @@ func c02NewProposal(p string, m *c02Model, base uint64, wellFormed bool) c02Prop
 		FenceVersion: zzsym.U64(p + ".fence"), CommandID: c02Cmd(p), BaseOffset: base, LastOffset: base + uint64(cnt),
 		PreviousTerm: zzsym.U64(p + ".prevterm"), PreviousIndex: base,
 	}
-	k := zzsym.Choice(p+".prevdigest", len(m.entries)+2)
+	k := len(m.entries) // malformed requests are pinned to the accepting predecessor: the stored tail
+	if wellFormed {
+		k = zzsym.Choice(p+".prevdigest", len(m.entries)+2)
+	}
 	if k >= 1 && k <= len(m.entries) {
 		man.PreviousDigest = m.entries[k-1].Digest
 	} else if k > len(m.entries) {
@@ -364,24 +367,41 @@ func c02NewProposal(p string, m *c02Model, base uint64, wellFormed bool) c02Prop
 			}
 		}
 	} else {
-		if zzsym.Choice(p+".fault.version", 2) == 1 {
+		// quick: no fault, each single range/version fault, or all of them; thorough: every combination
+		fv, fb, fl, fp := false, false, false, false
+		if zzsym.Thorough() {
+			fv, fb = zzsym.Choice(p+".fault.version", 2) == 1, zzsym.Choice(p+".fault.base", 2) == 1
+			fl, fp = zzsym.Choice(p+".fault.last", 2) == 1, zzsym.Choice(p+".fault.previndex", 2) == 1
+		} else {
+			f := zzsym.Choice(p+".fault", 6)
+			fv, fb, fl, fp = f == 1 || f == 5, f == 2 || f == 5, f == 3 || f == 5, f == 4 || f == 5
+		}
+		if fv {
 			man.Version = zzsym.U16(p + ".version")
 			zzsym.Assume(man.Version != ch.ProposalManifestVersion)
 		}
-		if zzsym.Choice(p+".fault.base", 2) == 1 {
+		if fb {
 			man.BaseOffset = zzsym.U64(p + ".manbase")
 			zzsym.Assume(man.BaseOffset != base)
 		}
-		if zzsym.Choice(p+".fault.last", 2) == 1 {
+		if fl {
 			man.LastOffset = zzsym.U64(p + ".manlast")
 			zzsym.Assume(man.LastOffset != base+uint64(cnt))
 		}
-		if zzsym.Choice(p+".fault.previndex", 2) == 1 {
+		if fp {
 			man.PreviousIndex = zzsym.U64(p + ".manprevindex")
 			zzsym.Assume(man.PreviousIndex != base)
 		}
+		// one record (any position) is arbitrary, the others are valid; thorough: all arbitrary
+		loose := zzsym.Choice(p+".rec.loose", cnt)
 		for i := range recs {
-			recs[i].Index = zzsym.U64(p + ".rec.index")
+			if i == loose || zzsym.Thorough() {
+				recs[i].Index = zzsym.U64(p + ".rec.index")
+				continue
+			}
+			zzsym.Assume(recs[i].ID != 0)
+			zzsym.Assume(recs[i].Epoch == man.ChannelEpoch)
+			zzsym.Assume(recs[i].ServerTimestampMS > 0)
 		}
 		garbageDigest = zzsym.Choice(p+".fault.digest", 2) == 1
 	}
@@ -474,11 +494,14 @@ func Harness_C02_BuildInvariant() {
 
 // ---------------------------------------------------------------- (1) AppendLeader step
 
-func c02AppendStep(wellFormed bool, maxBuild int) {
+func c02AppendStep(wellFormed bool, maxBuild int) (AppendOutcome, bool) {
 	s, m := c02Build("b", 0, maxBuild, false)
 	leo, hw := m.leo(), m.hw
 
-	base, far := c02Offset("base", leo)
+	base, far := leo, false
+	if wellFormed {
+		base, far = c02Offset("base", leo)
+	}
 	pr := c02NewProposal("q", m, base, wellFormed)
 	committed := zzsym.U64("q.committed")
 	if wellFormed {
@@ -518,7 +541,6 @@ func c02AppendStep(wellFormed bool, maxBuild int) {
 			zzsym.Assert(c02Holds(s, next), "after Durable the store is not the old log plus exactly the sealed proposal, HW = max(HW, Committed)")
 		}
 	case AppendOutcomeAlreadyDurable:
-		zzsym.Reach("already-durable")
 		zzsym.Assert(replay && validReq, "AlreadyDurable for a request that is not a byte-identical stored proposal")
 		zzsym.Assert(res.LastOffset == pr.manifest.LastOffset && res.BaseOffset == pr.manifest.BaseOffset+1 && res.NeedFrom == 0, "AlreadyDurable result does not describe the stored range")
 		same := &c02Model{manifests: m.manifests, entries: m.entries, records: m.records, hw: newHW}
@@ -534,15 +556,21 @@ func c02AppendStep(wellFormed bool, maxBuild int) {
 	zzsym.Assert(!(validReq && base > leo) || (res.Outcome == AppendOutcomeConflict && res.NeedFrom == leo+1), "a gap did not give Conflict with NeedFrom = LEO+1")
 	zzsym.Assert(!(validReq && !far && chains && fresh) || res.Outcome == AppendOutcomeDurable, "a valid proposal chained to the tail at the log end was refused")
 	zzsym.Assert(!(validReq && !far && replay) || res.Outcome == AppendOutcomeAlreadyDurable, "an exact replay of a stored proposal was not AlreadyDurable")
-	if far {
-		zzsym.Reach("far-base")
-	}
 	zzsym.Observe("append", uint64(res.Outcome), leo, res.NeedFrom, zzsym.B2U(err == nil))
+	return res.Outcome, far
 }
 
 // Harness_C02_AppendStep: one exact AppendLeader with a sealed, well-formed proposal at an arbitrary
 // base offset, arbitrary predecessor, authority, command id (possibly stored) and Committed.
-func Harness_C02_AppendStep() { c02AppendStep(true, c02MaxProposals()) }
+func Harness_C02_AppendStep() {
+	outcome, far := c02AppendStep(true, c02MaxProposals())
+	if far {
+		zzsym.Reach("far-base")
+	}
+	if outcome == AppendOutcomeAlreadyDurable {
+		zzsym.Reach("already-durable")
+	}
+}
 
 // Harness_C02_AppendMalformed: one exact AppendLeader whose manifest range fields, version, record
 // validity and digest are arbitrary: nothing but a sealed well-formed proposal is ever written.
@@ -576,8 +604,17 @@ func c02ReplaceStep(wellFormed bool, maxBuild, maxProposals int) {
 	exp.TailIdentity.Digest[31] ^= fTail
 	exp.TailIdentity.CommandID[0] ^= fCmd
 	exact := dLEO == 0 && dHW == 0 && dCk == 0 && dTerm == 0 && dIndex == 0 && fDigest == 0 && fTail == 0 && fCmd == 0
+	if !wellFormed {
+		zzsym.Assume(exact) // malformed suffix: everything else is pinned to the accepting case
+	}
 
-	kt, far := c02Offset("keep", leo)
+	var kt uint64
+	far := false
+	if wellFormed {
+		kt, far = c02Offset("keep", leo)
+	} else {
+		kt = uint64(zzsym.Choice("keep", int(leo)+1))
+	}
 	committed := zzsym.U64("r.committed")
 	inRange := !far && kt <= leo
 	onBoundary := inRange && m.boundary(kt)
@@ -585,7 +622,10 @@ func c02ReplaceStep(wellFormed bool, maxBuild, maxProposals int) {
 	if inRange {
 		kept = m.prefix(kt) // meaningful only on a proposal boundary; an off-boundary cut is never accepted
 	}
-	np := zzsym.Choice("r.proposals", maxProposals+1)
+	np := maxProposals
+	if wellFormed {
+		np = zzsym.Choice("r.proposals", maxProposals+1)
+	}
 	next := &c02Model{manifests: kept.manifests, entries: kept.entries, records: kept.records}
 	proposals := make([]RecoveryProposal, 0, np)
 	chained := true // concrete per path: every proposal sent is sealed, fresh and chained on what precedes it
@@ -652,10 +692,10 @@ func Harness_C02_ReplaceStep() {
 // version, records, digest): a replace is atomic, nothing is cut unless the whole suffix is valid.
 func Harness_C02_ReplaceMalformed() {
 	if zzsym.Thorough() {
-		c02ReplaceStep(false, 2, 2)
+		c02ReplaceStep(false, 2, 1)
 		return
 	}
-	c02ReplaceStep(false, 2, 1)
+	c02ReplaceStep(false, 1, 1)
 }
 
 // ---------------------------------------------------------------- (1) watermark setter
